@@ -233,7 +233,8 @@ def enter (w : World) (v : VehicleId) : Act → Outcome World
         if !routeOk route req.pos (some req.dest) then .error
         else if !veh.act.isDispatchTrip then .error
         else if !sreq.members.grants veh.members then .error
-        else if !routeOk route veh.pos none then .rejected
+        -- a trip starts only where the request waits, on a route that starts at the vehicle
+        else if !(veh.pos.cell == req.pos.cell && routeOk route veh.pos none) then .rejected
         else do
           let w1 ← pickUpTrip env w v sreq.id
           let s2 ← applyAct env w1.sim v (.servicingTrip sreq dep route)
